@@ -59,7 +59,9 @@ class Check(PropertyCheck):
             if not same:
                 field = rng.choice(["machines", "dur", "job", "pos", "id"] +
                                    (["start", "start", "machine", "machine", "machine"] if kind == "sop" else []))
-                if field == "machines":
+                if field == "machines" and len(b[0]) > 1 and rng.random() < 0.4:
+                    b[0] = b[0][1:] + b[0][:1]          # the same eligible machines in another order: another list
+                elif field == "machines":
                     b[0] = b[0][:-1] if len(b[0]) > 1 and rng.random() < 0.5 else b[0] + [max(b[0]) + 1]
                 elif field in ("dur", "job", "pos", "id"):
                     idx = {"dur": 1, "job": 2, "pos": 3, "id": 4}[field]
